@@ -349,8 +349,31 @@ class StepBudget(Exception):
     pass
 
 
+UNOBSERVABLE = set()        # names of interpreter / Context internals that could not be read (reported as drift)
+
+
+def _size(obj, name):
+    """len() of an INTERNAL attribute, read defensively: -1 = not observable (never a crash: a refactoring may
+    rename or remove any internal; the trace specification treats -1 as `unknown`)"""
+    try:
+        return len(getattr(obj, name))
+    except Exception:
+        UNOBSERVABLE.add(name)
+        return -1
+
+
+def _reg(obj, name, conv):
+    try:
+        return conv(getattr(obj, name))
+    except Exception:
+        UNOBSERVABLE.add(name)
+        return -1
+
+
 def make_tracer(events, budget):
     simpleTAL, _ = st_modules()
+    none = lambda x: -1 if x is None else int(x)        # noqa: E731
+    flag = lambda x: int(bool(x))                       # noqa: E731
 
     class Tracer(simpleTAL.HTMLTemplateInterpreter):
         def __init__(self):
@@ -360,26 +383,33 @@ def make_tracer(events, budget):
 
         def _wrap(self, op, h):
             def step(command, args):
-                pc = self.programCounter
+                pc = _reg(self, "programCounter", none)
                 h(command, args)
                 self._log(op, pc)
             return step
 
+        def _tell(self):
+            try:
+                return self.file.tell()
+            except Exception:
+                UNOBSERVABLE.add("file.tell")
+                return -1
+
         def _log(self, op, pc):
-            ctx = self.context
-            none = lambda x: -1 if x is None else x        # noqa: E731
-            events.append([pc, op, self.programCounter, len(self.scopeStack), int(bool(self.outputTag)),
-                           none(self.movePCForward), none(self.movePCBack), int(self.tagContent is not None),
-                           int(bool(self.localVarsDefined)), len(ctx.localStack), len(ctx.repeatStack),
-                           self.file.tell(), len(self.programStack)])
+            ctx = getattr(self, "context", None)
+            events.append([pc, op, _reg(self, "programCounter", none), _size(self, "scopeStack"), _reg(self, "outputTag", flag),
+                           _reg(self, "movePCForward", none), _reg(self, "movePCBack", none),
+                           _reg(self, "tagContent", lambda x: int(x is not None)), _reg(self, "localVarsDefined", flag),
+                           _size(ctx, "localStack"), _size(ctx, "repeatStack"), self._tell(), _size(self, "programStack")])
             if len(events) > budget:
                 raise StepBudget()
 
         def pushProgram(self):
             super().pushProgram()
-            events.append([self.programCounter, 0, self.programCounter, len(self.scopeStack), 0, -1, -1, 0, 0,
-                           len(self.context.localStack), len(self.context.repeatStack), self.file.tell(),
-                           len(self.programStack)])
+            ctx = getattr(self, "context", None)
+            pc = _reg(self, "programCounter", none)
+            events.append([pc, 0, pc, _size(self, "scopeStack"), 0, -1, -1, 0, 0, _size(ctx, "localStack"), _size(ctx, "repeatStack"),
+                           self._tell(), _size(self, "programStack")])
 
     return Tracer()
 
@@ -387,16 +417,67 @@ def make_tracer(events, budget):
 BUILTINS = ("nothing", "default", "options", "repeat", "attrs", "CONTEXTS")
 
 
-def snapshot(ctx):
-    g = {k: from_py(v) for k, v in ctx.globals.items() if k not in BUILTINS and k != "canary"}
-    return {"l": [{"n": k, "v": from_py(v)} for k, v in sorted(ctx.locals.items())],
-            "nls": len(ctx.localStack), "nrs": len(ctx.repeatStack), "rm": sorted(ctx.repeatMap.keys()),
+def _dict(obj, name):
+    d = getattr(obj, name, None)
+    if not isinstance(d, dict):
+        UNOBSERVABLE.add(name)
+        return {}
+    return d
+
+
+def tree_names(nodes, out=None):
+    """the variable names a template binds (repeat variables, local and global defines): what the probes ask for"""
+    out = [] if out is None else out
+    for nd in nodes:
+        if nd["k"] != "el":
+            continue
+        for c in nd["tal"]:
+            names = [c["name"]] if c["c"] == "repeat" else [i["name"] for i in c["items"]] if c["c"] == "define" else []
+            for n in names:
+                if n not in out:
+                    out.append(n)
+        tree_names(nd["kids"], out)
+    return out
+
+
+def probe(ctx, names):
+    """the Context's PUBLIC behaviour: what evaluate() answers for every name the template binds and for its
+    repeat variable (-2 = evaluate itself failed)"""
+    _, simpleTALES = st_modules()
+    out = []
+    for n in names:
+        rec = {"n": n, "found": False, "v": V("none"), "rnum": -1}
+        try:
+            rec["v"] = from_py(ctx.evaluate("nocall:" + n))
+            rec["found"] = True
+        except simpleTALES.PathNotFoundException:
+            pass
+        except Exception:
+            rec["v"] = V("other", s="error")
+        try:
+            r = ctx.evaluate("repeat/%s/number" % n)
+            rec["rnum"] = r if isinstance(r, int) and abs(r) < 2 ** 31 else -2
+        except simpleTALES.PathNotFoundException:
+            pass
+        except Exception:
+            rec["rnum"] = -2
+        out.append(rec)
+    return out
+
+
+def snapshot(ctx, names=()):
+    """Context before/after an expansion: public behaviour (probes) plus the internals, read defensively"""
+    gl = _dict(ctx, "globals")
+    g = {k: from_py(v) for k, v in gl.items() if k not in BUILTINS and k != "canary"}
+    return {"l": [{"n": k, "v": from_py(v)} for k, v in sorted(_dict(ctx, "locals").items())],
+            "nls": _size(ctx, "localStack"), "nrs": _size(ctx, "repeatStack"), "rm": sorted(_dict(ctx, "repeatMap").keys()),
             "g": [{"n": k, "v": g[k]} for k in sorted(g)],
-            "builtins": sorted(k for k in ctx.globals if k in BUILTINS),
-            "repeat_is_rm": ctx.globals.get("repeat") is ctx.repeatMap}
+            "builtins": sorted(k for k in gl if k in BUILTINS),
+            "repeat_is_rm": gl.get("repeat") is getattr(ctx, "repeatMap", None),
+            "probes": probe(ctx, names)}
 
 
-EMPTY_SNAP = {"l": [], "nls": 0, "nrs": 0, "rm": [], "g": [], "builtins": [], "repeat_is_rm": True}
+EMPTY_SNAP = {"l": [], "nls": 0, "nrs": 0, "rm": [], "g": [], "builtins": [], "repeat_is_rm": True, "probes": []}
 
 
 # ---- alpha: independent tokenizer of the output ------------------------------------------------------------------
@@ -530,7 +611,8 @@ def run_case(case, contexts, consts, want_tokens=False, second=False):
     prog, symt, macros = abstract_program(template, exprs, consts)
     can = Canary()
     ctx = build_context(case, template, contexts, can.hit)
-    before = snapshot(ctx)
+    names = tree_names(case["tree"])
+    before = snapshot(ctx, names)
     events = []
     out = io.StringIO()
     raised = ""
@@ -551,7 +633,7 @@ def run_case(case, contexts, consts, want_tokens=False, second=False):
         except Exception as e:
             doc2 = "raised:" + type(e).__name__
     final = {"ev": "end", "raised": raised, "doc": doc, "cdoc": canonical(toks), "doc2": doc2, "toks": toks if want_tokens else [],
-             "after": snapshot(ctx), "canary": can.n, "nsteps": len(events)}
+             "after": snapshot(ctx, names), "canary": can.n, "nsteps": len(events), "unobs": sorted(UNOBSERVABLE)}
     init.update(prog=prog, symt=symt, macros=macros, before=before, compiled=True)
     return {"text": text, "init": init, "events": events, "final": final}
 
